@@ -125,6 +125,14 @@ CLAIMS["C16"] = {
     "design_ref": "DESIGN.md §5 C16",
 }
 
+CLAIMS["C19"] = {
+    "technique": "static analysis: lockset dataflow (must-hold) over the message queue, thread-root closures from the call graph with shared-variable atomicity check, who-may-write on the eventfd counter",
+    "text": "Decides race-freedom structurally where it can: every access to a mutable field or slot of the message queue is under the queue mutex on every path, no path returns with it held, the blocking writer releases it around its wait; "
+            "variables written in a thread root's closure (timer thread, worker thread) and read by the backend must be atomic or locked (three are not: recorded findings); an eventfd counter may only be written with the constant 1 "
+            "(the completion post encodes key/data in it: recorded finding). Exactly-once delivery under interleavings, FIFO order and termination of stop are schedule-dependent and not decided.",
+    "design_ref": "DESIGN.md §5 C19",
+}
+
 NOT_APPLICABLE = {
     "C18": "Line/trace correctness is a value-level question about run-length tables (encode in the code generator, decode in find_line); no clause of it is visible in the shape of the code, so static analysis gives no verdict (DESIGN.md §6).",
 }
